@@ -214,6 +214,10 @@ namespace ratio
                     }
                     plcs[{&atm0, &atm1}].emplace_back(get_solver().get_sat_core().new_conj({get_solver().get_ov_theory().allows(a0_tau_itm->ev, *v0), !get_solver().get_ov_theory().allows(a1_tau_itm->ev, *v0)}), static_cast<const item *>(v0));
                 }
+            if (found) // a value the other atom cannot take separates the two atoms as well..
+                for (const auto &v0 : a0_vals)
+                    if (!a1_vals.count(v0))
+                        plcs[{&atm0, &atm1}].emplace_back(get_solver().get_ov_theory().allows(a0_tau_itm->ev, *v0), static_cast<const item *>(v0));
         }
         else if (a0_tau_itm)
         { // only 'a1_tau' is a singleton variable..
